@@ -12,6 +12,12 @@ CHECKS = {
         "Absence only up to sampling. Wedges are wall-clock based (20 s per case, re-confirmed in a fresh process). The terminal protocol of src/term/mod.rs is assumed; the real terminal (readline, signals, files) is emulated.",
         "6 C03",
     ),
+    "C05": (
+        "bounded-exhaustive enumeration of short strings over four lexical alphabets x six contexts + proptest random long lines, round-trip oracle (list, re-enter, list) on number / column-free AST / text / literals, via Line, Listing::load_str and the runtime's LIST",
+        "Exploration with a round-trip oracle. The small-scope part is complete: every string of up to k symbols of each alphabet in each context (1.1 million lines per quick run, k up to 6 in thorough) is listed and re-entered; the lexer's scanners are driven through every short combination of digits, exponent letters, suffixes, radix prefixes, relational characters, quotes, remark markers and keyword letters. Long random lines (soup, mutated/re-spelled snippets, arbitrary UTF-8) sample the rest.",
+        "Meaning = public AST with columns erased. File I/O of SAVE/LOAD is emulated by Listing::load_str. Beyond length k only sampled.",
+        "6 C05",
+    ),
     "C08": (
         "exhaustive enumeration (all 65536 Integers; boundary-pair cross product) + proptest random operand pairs against an i64 reference",
         "Exploration with an exact arithmetic oracle: every unary operation over the whole 16-bit range and every boundary pair is enumerated completely, random pairs cover the rest of the 2^32 pair space by sampling; float-to-Integer conversion is enumerated at every k+-delta around the limits through seven conversion sites. A wrapped or silently truncated value anywhere in these spaces is seen as a wrong printed number.",
